@@ -103,8 +103,26 @@ def check(rep, tier, seed):
             jobs.append((argv, render_vcf(cols, recs2, extra_fields=(k % 8 == 0), dot_fields=True))); mcases.append(mc); metas.append("unselected-garbage:" + mc)
             if k % 8 == 0:
                 bjobs.append((argv, bcf_encode_hts(render_vcf(cols, recs2)))); bcases.append(mc); bmetas.append("bcf-htslib-layout:unselected-garbage:" + mc)
+    # the same maps given as a samples file whose labels contain spaces and share their first word (the model case carries
+    # plain labels: only the partition into populations and their order matter)
+    import os
+    from common import WORK
+    from callsets import samples_file_bytes
+    os.makedirs(WORK, exist_ok=True)
+    sfiles = []
+    for k in range(12 if tier == "quick" else 120):
+        cols, recs = random_callset(rng, nsamples=rng.randrange(3, 9), p_skip=0.1)
+        sm = random_map(rng, cols, allow_unnamed=False)
+        spaced = {l: "New %s land" % l for l in dict.fromkeys(l for _, l in sm)}
+        path = os.path.join(WORK, "c01_samples_%d.txt" % k)
+        open(path, "wb").write(samples_file_bytes([(n, spaced[l]) for n, l in sm]))
+        sfiles.append(path)
+        mc = "create 0 %s %s - %s" % (",".join(cols), model_samples(sm), model_records(recs))
+        jobs.append((["create", "-S", path], render_vcf(cols, recs))); mcases.append(mc); metas.append("samples-file-spaced-labels:" + mc)
     exps = run_model(mcases)
     compare_cli(rep, "create-cli-vcf", jobs, exps, metas)
+    for f in sfiles:
+        os.remove(f)
     compare_cli(rep, "create-cli-bcf", bjobs, run_model(bcases), bmetas)
 
     # (d) create/marginalize relation on complete data
